@@ -127,7 +127,7 @@ class Menu:
     """Which non-default answers a socket may give.  Everything off == ideal socket."""
     __slots__ = ("send_partial", "send_min", "send_block", "send_errnos", "recv_split", "recv_block",
                  "recv_errnos", "recv_idle_errnos", "connect", "accept_block", "accept_errnos",
-                 "handshake", "send_ssl", "recv_ssl")
+                 "handshake", "send_ssl", "recv_ssl", "shutdown_errnos")
 
     def __init__(self, **kw):
         self.send_partial = False    # send() may accept any count send_min..len-1
@@ -144,6 +144,7 @@ class Menu:
         self.handshake = ()          # extra do_handshake() answers: ssl kinds or ("err", e) tuples
         self.send_ssl = ()           # TLS send() may raise these ssl kinds
         self.recv_ssl = ()           # TLS recv() may raise these ssl kinds
+        self.shutdown_errnos = ()    # shutdown() may raise OSError(e) (ENOTCONN: transport already gone, ...)
         for k, v in kw.items():
             setattr(self, k, v)      # unknown names raise AttributeError (slots)
 
@@ -260,6 +261,10 @@ class FakeNet:
             ans = tuple(q.popleft())
             self.log.append((sock.name, op, ans))
             return ans
+        if op in sock.sticky:
+            ans = tuple(sock.sticky[op])
+            self.log.append((sock.name, op, ans))
+            return ans
         i = self.policy.decide(sock, op, cands)
         ans = cands[i]
         if len(cands) > 1:
@@ -295,6 +300,7 @@ class FakeSocket:
         net.sockets.append(self)
         self.menu = net.menu
         self.forced = {}             # op -> deque of answers that bypass menu and policy
+        self.sticky = {}             # op -> answer given on EVERY call from now on (e.g. shutdown after a peer reset)
         self.laddr = None            # bound / assigned local address
         self.raddr = None            # peer address once connected (or connecting)
         self.state = "new"           # new | listening | connecting | connected | refused
@@ -331,6 +337,12 @@ class FakeSocket:
 
     def feed_eof(self):
         self.peer_closed = True
+
+    def stick(self, op, answer):
+        """Every later `op` on this socket gets `answer` (bypasses menu and policy), e.g.
+        sock.stick("shutdown", net.ERR(errno.ENOTCONN)) after the peer reset the connection."""
+        self.sticky[op] = tuple(answer)
+        return self
 
     def _check_open(self):
         if self.closed:
@@ -616,6 +628,9 @@ class FakeSocket:
         self.net.note(self, "shutdown", how)
         if self.state != "connected":
             raise oserror(_errno.ENOTCONN)
+        ans = self.net.decide(self, "shutdown", [OK] + [ERR(e) for e in self.menu.shutdown_errnos])
+        if ans[0] != "ok":
+            self._raise(ans, "shutdown")     # nothing is shut down: the transport is already gone / unusable
         if how in (_socket.SHUT_RD, _socket.SHUT_RDWR):
             self.shut_rd = True
         if how in (_socket.SHUT_WR, _socket.SHUT_RDWR):
@@ -958,6 +973,13 @@ def selftest():
         ok(False, "forced error")
     except ConnectionResetError as ex:
         ok(ex.args[0] == ex.errno == _errno.ECONNRESET, "errno args")
+    b.stick("shutdown", ERR(_errno.ENOTCONN))
+    for _ in range(2):
+        try:
+            b.shutdown(_socket.SHUT_RDWR)
+            ok(False, "sticky shutdown fault")
+        except OSError as ex:
+            ok(ex.args[0] == _errno.ENOTCONN and not isinstance(ex, ConnectionError) and not b.shut_wr, "ENOTCONN")
     ctx = FakeSslContext(fn)
     t = ctx.wrap_socket(a, server_side=False, do_handshake_on_connect=False)
     t.menu = Menu(send_block=True)
